@@ -77,8 +77,8 @@ struct Opaque { _p: u8 }
 //@ >>
 //@ end
 
-spec const B: int = 1048576;
-spec fn nb_of(o: int) -> int { (o / B + 1) * B }
+//@ include log_format.inc.rs
+
 proof fn lemma_shift(offset: u64)
     ensures (offset >> 20) as int == offset as int / 1048576, (offset >> 20) < 0x1000_0000_0000,
 {
@@ -120,17 +120,6 @@ proof fn lemma_shl(k: u64)
 //@ >>
 //@ end
 
-// ---------------------------------------------------------------- the format
-uninterp spec fn hdr(size: u64, discriminant: u32, crc: u32) -> Seq<u8>;
-uninterp spec fn crc_of(b: Seq<u8>) -> u32;
-spec fn zeros(n: int) -> Seq<u8> { Seq::new(n as nat, |i: int| 0u8) }
-spec fn hdr_ok(size: u64, discriminant: u32, crc: u32) -> bool { 3 <= hdr(size, discriminant, crc).len() <= 19 }
-// ASSUMED (discharged on the compiled derive code by Kani unit sst_log: header_size_in_range): size byte + 2..=18 bytes
-#[verifier::external_body]
-proof fn axiom_hdr_len(size: u64, discriminant: u32, crc: u32)
-    ensures hdr_ok(size, discriminant, crc)
-{ }
-
 #[verifier::external_body]
 fn crc32c_of(buffer: &[u8]) -> (r: u32)
     ensures r == crc_of(buffer@),
@@ -141,24 +130,6 @@ fn framed_len(header: &Header) -> (r: usize)
     ensures r == hdr(header.size, header.discriminant, header.crc32c).len(), 3 <= r <= 19,
 { unimplemented!() }
 
-// p bytes of zero padding are legal at offset o only to reach the next boundary, and never more than 19
-spec fn pad_ok(o: int, p: int) -> bool { p == 0 || (0 < p <= 19 && o % B != 0 && (o + p) % B == 0) }
-spec fn whole_layout(o: int, buf: Seq<u8>, a: Seq<u8>, p: int) -> bool {
-    let h = hdr(buf.len() as u64, 1, crc_of(buf));
-    &&& pad_ok(o, p)
-    &&& a == zeros(p) + h + buf
-    &&& o + p + h.len() + buf.len() <= nb_of(o + p)
-}
-spec fn split_layout(o: int, buf: Seq<u8>, a: Seq<u8>, p: int, f: int, q: int) -> bool {
-    let first = buf.subrange(0, f); let second = buf.subrange(f, buf.len() as int);
-    let h1 = hdr(f as u64, 2, crc_of(first)); let h2 = hdr((buf.len() - f) as u64, 3, crc_of(second));
-    &&& pad_ok(o, p) && 0 <= f <= buf.len() && 0 <= q <= 19
-    &&& a == zeros(p) + h1 + first + zeros(q) + h2 + second
-    &&& (o + p + h1.len() + f + q) == nb_of(o + p)
-}
-spec fn appended_ok(o: int, buf: Seq<u8>, a: Seq<u8>) -> bool {
-    (exists|p: int| #[trigger] whole_layout(o, buf, a, p)) || (exists|p: int, f: int, q: int| #[trigger] split_layout(o, buf, a, p, f, q))
-}
 // padding in front of a correctly laid out batch that starts at a boundary is a correctly laid out batch
 proof fn lemma_pad_compose(o: int, buf: Seq<u8>, z: int, a: Seq<u8>)
     requires 0 < z <= 19, o >= 0, o % B != 0, (o + z) % B == 0, appended_ok(o + z, buf, a)
@@ -297,6 +268,7 @@ impl LogBuilder {
 //@ >>
 //@ post <<
         r is Ok ==> exists|a: Seq<u8>| #[trigger] final(self).grew_by(old(self), a) && appended_ok(old(self).bytes_written as int, buffer@, a),
+        r is Ok ==> buffer@.len() < 1073741824 - 67108864,
 //@ >>
 //@ dec <<
         (if old(self).bytes_written as int % B == 0 { 0int } else { 1int }), 1int,
